@@ -4,6 +4,7 @@ import RbV.Ref.PoaAccept
 import RbV.Lemmas.NWIdentity
 import RbV.Lemmas.PoaChain
 import RbV.Lemmas.PoaGrow
+import RbV.Lemmas.PoaAcyclic
 /-!
 # C16 — partial-order alignment: exact on linear graphs, graph stays a growing DAG
 
@@ -128,6 +129,29 @@ theorem model_identity_readdition_keeps_nodes (x : List Nat) (es : Poa.Model.WEd
     (Poa.Model.addAlignment { labels := x, es := es } (Poa.Model.idOps x.length) x).labels = x :=
   Poa.Model.addAlignment_identity_labels x es hhead
 
+/-- **partial** (DESIGN [C]).  Full statement wanted: for every acyclic graph `g` and every operation list
+`ops` produced by the model's traceback on `g`, `addAlignment g ops seq` is acyclic.
+Proved: the conclusion for every operation list that *names nodes in increasing rank* (`bodyB`: each
+`Match(Some((_, p)))` lies above the rank bound of `prev`, with room for the nodes created in between; the
+inserted prefix `Ins(None)…` stays below the head) where `rk` is any rank function increasing along the old
+edges — `Ins(None)`, `Match(None)`, mismatches, clips, skipped nodes all covered.
+Missing: that `traceLoop` emits only such lists (it moves along edges, so the named nodes come in topological
+order).  In its place the driver evaluates the hypothesis on every observed list (`acyclicCert`, tag
+`acyclic-cert`), and the model's result is compared with the real dump (`drift-add`). -/
+theorem model_add_preserves_acyclic_partial (g : Poa.Model.G) (rk : Nat → Nat) (ops : List POp) (seq : List Nat)
+    (hrk : ∀ e ∈ g.es, e.1 < g.labels.length ∧ e.2.1 < g.labels.length ∧ rk e.1 < rk e.2.1)
+    (hhead : (Poa.Model.topo g.labels.length g.es).headD 0 < g.labels.length)
+    (hbody : Poa.Model.bodyB rk g.labels.length ((Poa.Model.topo g.labels.length g.es).headD 0)
+      (rk ((Poa.Model.topo g.labels.length g.es).headD 0)) false ops = true) :
+    ∀ v, ¬ Reach (plain (Poa.Model.addAlignment g ops seq).es) v v :=
+  Poa.Model.addAlignment_acyclic_partial g rk ops seq hrk hhead hbody
+
+/-- the executable certificate (`topo` position scaled by `|ops|+1` as rank function) implies that the
+model's updated graph has no cycle -/
+theorem model_acyclic_certificate (g : Poa.Model.G) (ops : List POp) (seq : List Nat)
+    (h : Poa.Model.acyclicCert g ops = true) : ∀ v, ¬ Reach (plain (Poa.Model.addAlignment g ops seq).es) v v :=
+  Poa.Model.acyclic_of_cert g ops seq h
+
 /-! ## Non-vacuity: the hypotheses are met by concrete non-trivial inputs -/
 
 def exSc : Sc := { w := fun a b => if a = b then 1 else -1, gap := -1 }
@@ -142,6 +166,12 @@ example : (Poa.Model.addAlignment { labels := [65, 67, 71], es := [(0, 1, 2), (1
     = [(0, 1, 3), (1, 2, 3)] := by decide
 example : (Poa.Model.addAlignment { labels := [65, 67, 71], es := [(0, 1, 1), (1, 2, 1)] }
     [.m none, .i (some 0), .m (some (0, 1)), .d (some (1, 3))] [65, 84, 71]).labels = [65, 67, 71, 84, 71] := by decide
+-- AAA + BBBBBAAA (test_edge_cases 4): five leading `Ins(None)`, then the edge into the old head
+example : Poa.Model.acyclicCert { labels := [65, 65, 65], es := [(0, 1, 1), (1, 2, 1)] }
+    [.i none, .i none, .i none, .i none, .i none, .m none, .m (some (0, 1)), .m (some (1, 2))] = true := by decide
+-- naming nodes against the order is refused
+example : Poa.Model.acyclicCert { labels := [65, 65, 65], es := [(0, 1, 1), (1, 2, 1)] }
+    [.m none, .m (some (1, 2)), .m (some (0, 1))] = false := by decide
 -- a DAG with a bubble is accepted, a 3-cycle is not
 example : isAcyclic 4 [(0, 1), (1, 2), (0, 3), (3, 2)] = true := by decide
 example : isAcyclic 3 [(0, 1), (1, 2), (2, 0)] = false := by decide
